@@ -15,8 +15,12 @@ package lib
 //   stream; every byte a Read returned (also together with EOF / an error) before the first write
 //   failure was offered, unless the other direction had already started closing or a SetDeadline
 //   failure ended the direction; accepted bytes == tunnelStats == deltas of the global counters;
+//   a direction ends only because one side failed (error from Read / Write / SetDeadline, short
+//   write, close by the peer direction) - a zero-length read (0, nil) is not an end of stream;
 //   after the end: every direction closed both connections (unless the peer had closed that
-//   connection before), the WaitGroup is released exactly, no goroutine is left.
+//   connection before), its own synchronous Close of the destination was entered and returned
+//   while the WaitGroup counter was still positive (only the source is closed by a detached
+//   goroutine), the WaitGroup is released exactly, no goroutine is left.
 
 import (
 	"fmt"
@@ -411,10 +415,12 @@ func c05JudgeStreams(evs []c05Ev, done [2]int) (viols []c05Viol, accepted [2]int
 		if done[d] == 0 {
 			continue
 		}
-		// a direction may only end because one side failed: the last result it was handed before it
-		// started to tear down has to be an error (EOF, reset, time-out, closed by the peer direction,
-		// failed SetDeadline ...) or a short write. A zero-length read without error is not an end.
-		if lastIO != nil && lastIO.Err == "" && !(lastIO.Op == "write" && lastIO.N < lastIO.Len) {
+		// a direction may only end because one side failed: its last Read returned an error (EOF, reset,
+		// time-out, closed by the peer direction ...; the bytes that came with it may still have been
+		// written afterwards), or the last result it was handed before it started to tear down is a
+		// failed / short Write or a failed SetDeadline. A zero-length read without error is not an end.
+		lastReadFailed := len(reads) > 0 && reads[len(reads)-1].Err != ""
+		if lastIO != nil && !lastReadFailed && lastIO.Err == "" && !(lastIO.Op == "write" && lastIO.N < lastIO.Len) {
 			add("ended-without-failure", "%s stopped relaying and tore the tunnel down although neither side had failed: the last result it got was %s (no error, no short write); everything after it is lost",
 				c05DirName[d], c05Describe(*lastIO))
 		}
